@@ -950,7 +950,31 @@ def _full_like(ex, args, kwargs, fr):
 @npfn("numpy.array_equal")
 def _array_equal(ex, args, kwargs, fr):
     a, b = args
+    if is_num(a) and is_num(b):
+        # two scalars are 0-d arrays: equal iff the values are equal (library contract)
+        return VBool(num_compare("eq", a, b))
+    if isinstance(a, VStr) and isinstance(b, VStr):
+        return VBool(z_str(a.v) == z_str(b.v)) if not (is_conc(a.v) and is_conc(b.v)) else VBool(a.v == b.v)
+    if (is_num(a) and ex.is_arr(b)) or (ex.is_arr(a) and is_num(b)):
+        arr, sc = (b, a) if is_num(a) else (a, b)
+        c = cell(ex, arr)
+        if len(c.shape) > 0:
+            allone = z_and(*[z_int(d) == 1 for d in c.shape])
+            if allone is not True and not ex.st.branch(z_bool(allone) if not isinstance(allone, bool) else z3.BoolVal(allone)):
+                return VBool(False)        # shapes (n,) and () differ unless every dimension is 1
+        return VBool(num_compare("eq", c.elem(tuple(z3.IntVal(0) for _ in c.shape)), sc))
     if not (ex.is_arr(a) and ex.is_arr(b)):
+        la, lb = ex.try_list(a), ex.try_list(b)
+        if (la is not None and (is_num(b) or lb is not None)) or (lb is not None and is_num(a)):
+            if la is not None and lb is not None and len(la) == len(lb) and all(is_num(x) for x in la + lb):
+                return VBool(z_and(*[num_compare("eq", x, y) for x, y in zip(la, lb)]))
+            if la is not None and lb is not None and len(la) != len(lb):
+                return VBool(False)
+            one, sc = (la, b) if la is not None else (lb, a)
+            if len(one) == 1 and is_num(one[0]) and is_num(sc):
+                return VBool(num_compare("eq", one[0], sc))
+            if len(one) != 1:
+                return VBool(False)
         raise Unsupported("array_equal on non-arrays")
     ca, cb = cell(ex, a), cell(ex, b)
     se = shape_eq(ca.shape, cb.shape)
